@@ -26,7 +26,8 @@ class Ob:
     def __init__(s, name, harness, roots, what, bound, stubs=(), ir='inl', model='bit', rename=None, shrink=(),
                  variants=None, unwind=None, unwindset=(), flags=(), timeout=300, mem_gb=8, tier='quick', real=True,
                  validate=True, nvec=60, wrap_files=False, excludes=(), defines=None, witness=True, no_unwind_assert=False,
-                 solver='cadical', real_stub_syms=(), retry_defines=(), fallback=None, callrename=None):
+                 solver='cadical', real_stub_syms=(), retry_defines=(), fallback=None, callrename=None, unwinding_is_property=False):
+        s.unwinding_is_property = unwinding_is_property
         s.callrename = {(a, b): c for a, d in (callrename or {}).items() for b, c in d.items()}
         s.retry_defines = list(retry_defines); s.fallback = fallback
         s.name, s.harness, s.roots, s.what, s.bound = name, harness, list(roots), what, bound
@@ -100,7 +101,7 @@ class Run:
         procs = []
         for f in srcs:
             o = os.path.join(d, os.path.basename(f)[:-4] + '.o')
-            procs.append((f, subprocess.Popen(['g++', '-std=c++17', '-O1', '-g', '-fno-inline', '-DNDEBUG', '-DHEITZMANN_GDSTK_VERIF', '-fsanitize=address,undefined', '-fno-sanitize=nonnull-attribute',
+            procs.append((f, subprocess.Popen(['g++', '-std=c++17', '-O1', '-g', '-fno-inline', '-DNDEBUG', '-DHEITZMANN_GDSTK_VERIF', '-fsanitize=address,undefined', '-fno-sanitize=nonnull-attribute,alignment',
                                                '-fno-sanitize-recover=undefined', '-I' + REPO + '/include', '-I' + REPO + '/external', '-I' + REPO + '/external/clipper',
                                                '-c', f, '-o', o], stdout=subprocess.PIPE, stderr=subprocess.STDOUT, text=True)))
         for f, p in procs:
@@ -334,6 +335,7 @@ def replay(run, ob, rec):
     exe, o = native_build(run, ob, v, d, real=True)
     if not exe: return None, 'replay build failed: ' + o[-1500:]
     rc, out = run_native(exe, inputs=inputs, d=d, timeout=60) if inputs is not None else run_native(exe, seed=seed, timeout=60)
+    if rc == 'timeout': return True, 'native replay did not return within 60 s (hang)\n' + out[-1500:]
     if rc == 0: return False, out[-1500:]
     if rc == 77: return None, 'replay: counterexample inputs violate a harness assumption natively: ' + out[-500:]
     return True, f'exit={rc}\n' + out[-3000:]
@@ -397,7 +399,7 @@ def main():
         for o, r in results:
             if r['status'] == 'inconclusive': inconclusive.append(r); continue
             if r['status'] != 'counterexample': continue
-            if r.get('unwinding_only') and not getattr(o, 'unwinding_is_property', False):
+            if r.get('unwinding_only') and not o.unwinding_is_property:
                 r['status'] = 'inconclusive'; r['notes'].append('only unwinding assertions failed: loop bound too small for this tree'); inconclusive.append(r)
                 print(f"[{a.prop}] {r['obligation']}: unwinding bound exceeded -> inconclusive: {r['counterexample']['failures'][:3]}"); continue
             ok, text = replay(run, o, r)
